@@ -50,6 +50,19 @@ CLAIMED = {
         note=BASE_NOTE + 'isMine() answers are measured, not modelled; class creation during an open (would register new readers) is observed through the registry comparison only.',
         technique='Lean 4 proof (frame lemma + induction over open histories) with a source-extracted model flag + model/implementation correspondence',
         design='§7 C15'),
+    'C12': dict(
+        text=('Lean model of the time paths (TFLAG decode, SDATE/STIME/TSTEP arithmetic, updatetflag encode, '
+              'add_time_variable, CF "unit since reference" for standard calendars, and the 365/366-day calendar path '
+              'transcribed with its defects) over integer/rational seconds with the proleptic Gregorian calendar as '
+              'datetime implements it. Theorems for ALL years >= 1: the closed-form days-before-year equals the sum of '
+              'year lengths; ordinal <-> (year, day-of-year) are mutually inverse; flag decode equals the first-principles '
+              'instant; encode/decode of flags round-trip, so synthesised TFLAGs decode to the attribute times across any '
+              'day/year/leap roll-over; CF time from flags decodes to the flags; date2num inverse for standard calendars; '
+              'kernel-checked counterexamples for the three recorded findings. Correspondence + independent oracle '
+              '(datetime / cftime / independent reference-date parser) on every run.'),
+        note=BASE_NOTE + 'reference-date string parsing is not modelled (the parsed reference is passed to the model; an independent parser and cftime judge the result); timedelta microsecond rounding is trusted.',
+        technique='Lean 4 proof (omega over calendar digit decompositions, induction) + model/implementation correspondence + independent oracle',
+        design='§7 C12'),
 }
 
 NOT_YET = {}
